@@ -4,6 +4,7 @@ import AdaptiveModel.Drv.SaveFs
 import AdaptiveModel.Drv.DataSaver
 import AdaptiveModel.Drv.Avg
 import AdaptiveModel.Drv.Avg1D
+import AdaptiveModel.Drv.L1D
 /-!
 Line-protocol driver: `lake env lean --run Driver.lean < ops.txt`.
 Each input line is `<component> <op> <args…>`; one output line per input line.
@@ -11,6 +12,7 @@ Each input line is `<component> <op> <args…>`; one output line per input line.
 structure All where
   seq : Seq.State Int := Seq.init 0
   ds : DataSaver.Drv.D := {}
+  l1 : L1D.Drv.D := {}
   avg : Avg.State Float := Avg.init none none 2
   a1 : Avg1D.State Float := { minSamples := 0, maxSamples := 0, neighborSampling := 0 }
   run : Runner.State := Runner.init { ntasks := 1, retries := 0, raiseIf := true, blocking := true, doLog := false }
@@ -22,6 +24,7 @@ def stepAll (a : All) (line : String) : All × String :=
   | "ds" :: rest => let (s, o) := DataSaver.Drv.stepLine a.ds rest; ({ a with ds := s }, o)
   | "avg" :: rest => let (s, o) := Avg.Drv.stepLine a.avg rest; ({ a with avg := s }, o)
   | "a1" :: rest => let (s, o) := Avg1D.Drv.stepLine a.a1 rest; ({ a with a1 := s }, o)
+  | "l1" :: rest => let (s, o) := L1D.Drv.stepLine a.l1 rest; ({ a with l1 := s }, o)
   | "save" :: rest => (a, SaveFs.Drv.stepLine rest)
   | _ => (a, "bad-component")
 
